@@ -1,3 +1,3 @@
-CONSTANT Offsets = "all"
+CONSTANT Offsets = "all" Shapes = {"small", "nested", "pixel"}
 SPECIFICATION Spec
 CHECK_DEADLOCK FALSE
